@@ -27,14 +27,19 @@
                              grouping, emission): the filtered watch queues EXACTLY the accepted part of what
                              the unfiltered watch queues, from Inotify.__init__ on, for every recursive watch and
                              for every non-recursive watch whose mask contains IN_MOVE
+     C11_transparent_sequential_all
+                             the same for EVERY filter and both kinds of watch (the non-recursive watches whose mask
+                             has no IN_MOVE are handled by a weaker twin relation: reader states equal up to
+                             _moved_from_events), given a well-formed root path and rename sources with a base name
    What is NOT proved: C11_full, the unrestricted statement.  The gaps, named:
-     (a) non-recursive watches whose filter asks for no move-derived class (e.g. [FileOpenedEvent]): the
-         mask has no IN_MOVE, the filtered reader's _moved_from_events differs (harmlessly) from the
-         unfiltered one's and the twin relation used here (identical reader states) does not hold;
-     (b) histories that are not drained: several operations per read (the kernel then coalesces differently
+     (a) histories that are not drained: several operations per read (the kernel then coalesces differently
          under different masks - C11_kernel_twin is only up to kcollapse), reads that cut a burst, pairing
          through the delay queue across reads and the clock;
-     (c) the skip-repeats event queue (C16) between emitter and handler (hence "up to stutter" in C11_full).
+     (b) the skip-repeats event queue (C16) between emitter and handler (hence "up to stutter" in C11_full);
+     (c) C11_transparent_sequential(_all) speak about [run_from] (Inotify.__init__, then per operation: kernel,
+         one read of the whole queue, grouping, emission); per operation this is what Pipeline.prun delivers
+         (C11_pipeline_tie_filtered), but the induction over a whole Pipeline history (idle buffer re-established
+         after every operation) is not carried out.
    C11_pipeline_tie_filtered / C11_pipeline_transparent_step tie the drained regime to Pipeline.prun with the
    watch's class filter (pc_filter): they are C03's pipeline_tie with the filter kept. *)
 Require Import WD.Base.Prelude WD.Base.BStr WD.Model.SubEvents WD.Model.Emitter WD.Model.MaskTable.
@@ -42,7 +47,7 @@ Require Import WD.Model.Fs WD.Model.Reader WD.Model.Contract.
 Require Import WD.Gen.MaskTableGen WD.Proofs.MaskTableProofs WD.Proofs.C11Proofs WD.Proofs.ContractProofs.
 Require Import WD.Proofs.C11KernelProofs WD.Proofs.C11ReaderProofs WD.Proofs.C11TwinProofs WD.Proofs.C11GroupProofs
                WD.Proofs.C11SeqProofs.
-Require Import WD.Model.Pipeline WD.Proofs.C11TieProofs.
+Require Import WD.Model.Pipeline WD.Proofs.C11TieProofs WD.Proofs.C11FlatProofs.
 
 (* The full property.  [events F full recursive h] = the events delivered to the handler of a watch
    with event filter F (None = no filter) over the operation history h; [paced] = the pacing condition
@@ -236,6 +241,33 @@ Theorem C11_transparent_sequential : forall F C full,
 Proof. exact transparent_from. Qed.
 Print Assumptions C11_transparent_sequential.
 
+(* EVERY FILTER, RECURSIVE AND NON-RECURSIVE.  The hypotheses beyond C11_transparent_sequential's replace
+   [visible]: the root path is non-empty and does not end in "/", and the source of every rename has a proper
+   base name (both true of every real path; needed only for the non-recursive watches whose mask has no IN_MOVE,
+   to know that a remembered move source is never the watched root itself). *)
+Theorem C11_transparent_sequential_all : forall F C full,
+  c_mask C = WATCHDOG_ALL -> c_root C <> [] -> last_is_sep (c_root C) = false ->
+  forall w ops evs, Forall op_ok ops ->
+    run_from None C full w ops = Some evs ->
+    run_from F (with_mask C (kmask F (c_recursive C))) full w ops
+    = Some (filter (fun e => accepts F (ev_cls e)) evs).
+Proof. exact transparent_from_all. Qed.
+Print Assumptions C11_transparent_sequential_all.
+
+(* the non-recursive reader is insensitive to the halves of a move *)
+Theorem C11_reader_transparent_flat : forall C, c_recursive C = false -> c_root C <> [] -> last_is_sep (c_root C) = false ->
+  forall t (keep : N -> bool), (forall m, Emitter.is_ignored m = true -> keep m = true) ->
+  forall b r r0 k acc r' k' out,
+    (forall e, In e b -> keep (k_mask e) = true -> is_moved_from (k_mask e) = false /\ is_moved_to (k_mask e) = false) ->
+    (forall e, In e b -> is_moved_from (k_mask e) = true -> valid_name (k_name e) = true) ->
+    req r r0 -> flat_inv (c_root C) r ->
+    read_batch C t (r, k, acc) b = Done (r', k', out) ->
+    exists r0',
+      read_batch C t (r0, k, filter (fun x => keep (r_mask x)) acc) (filter (fun e => keep (k_mask e)) b)
+      = Done (r0', k', filter (fun x => keep (r_mask x)) out) /\ req r' r0' /\ flat_inv (c_root C) r'.
+Proof. exact reader_transparent_flat. Qed.
+Print Assumptions C11_reader_transparent_flat.
+
 (* [run_one (pc_filter P)] is what the Pipeline model delivers for AOp o; ARead (whole queue); ATick delay;
    AEmit ... from a state whose buffer is idle (C03's pipeline_tie, with the class filter kept). *)
 Theorem C11_pipeline_tie_filtered : forall P s o w1 k1 r1 evs,
@@ -374,3 +406,21 @@ Example C11_sequential_nonvacuous :
              (run_from F (with_mask (ex_C true) (kmask F true)) false ex_world ops)
     = Some [(FileDeleted, ex_sl ex_Rd 98); (FileDeleted, ex_sl (ex_sl ex_R 109) 110)].
 Proof. split; [reflexivity|]. split; [apply visible_recursive|]. vm_compute. split; reflexivity. Qed.
+
+(* the all-filters theorem on a non-recursive watch with [FileOpenedEvent] (mask DELETE_SELF|OPEN: no IN_MOVE) *)
+Example C11_sequential_flat_nonvacuous :
+  let F := Some [Concrete FileOpened] in
+  let ops := [Touch (ex_sl ex_R 97); Rename (ex_sl ex_R 97) (ex_sl ex_R 98); Write (ex_sl ex_R 98);
+              Rename (ex_sl ex_R 98) (ex_sl ex_O 99)] in
+  kmask F false = N.lor IN_DELETE_SELF IN_OPEN /\ Forall op_ok ops /\
+  option_map (map ev_cls) (run_from None (ex_C false) false ex_world ops)
+    = Some [FileCreated; DirModified; FileOpened; FileClosed; DirModified;
+            FileMoved; DirModified; DirModified;
+            FileOpened; FileModified; FileClosed; DirModified;
+            FileDeleted; DirModified] /\
+  option_map (map (fun e => (ev_cls e, ev_src e)))
+             (run_from F (with_mask (ex_C false) (kmask F false)) false ex_world ops)
+    = Some [(FileOpened, ex_sl ex_R 97); (FileOpened, ex_sl ex_R 98)].
+Proof.
+  split; [reflexivity|]. split; [repeat constructor|]. vm_compute. split; reflexivity.
+Qed.
